@@ -605,3 +605,68 @@ Proof.
   intros Sl s i s' i' h r G E1 E2. destruct (Sl _ _ _ _ E1 G) as [T1 I1]. destruct (Sl _ _ _ _ E2 G) as [T2 I2].
   split; congruence.
 Qed.
+
+(* ---- a client goes: nothing of it stays in its tables ---- *)
+Lemma entry_removeclientrq_other st c i j : j <> N.to_nat i -> entry (removeclientrq st c i) c j = entry st c j \/ entry (removeclientrq st c i) c j = None.
+Proof.
+  intro Hn. unfold removeclientrq. cbv zeta.
+  destruct (nth (N.to_nat i) (c_rqs (get_client st c)) None) as [h|] eqn:En; [|left; reflexivity].
+  destruct (get_rq st h) as [r|] eqn:G; [|left; reflexivity].
+  set (st1 := match rq_to r with Some s => _ | None => st end).
+  assert (C1 : get_client st1 c = get_client st c).
+  { subst st1. destruct (rq_to r) as [s|]; [|reflexivity]. destruct (sl_rq _) as [h2|]; [|reflexivity].
+    destruct (Nat.eqb h2 h); [apply get_client_freerqoutdata | reflexivity]. }
+  unfold entry. rewrite get_client_freerq.
+  destruct (Nat.lt_ge_cases c (length (st_clients st1))) as [L|L].
+  - rewrite get_client_set_client by exact L. rewrite Nat.eqb_refl. cbn [c_rqs]. rewrite C1.
+    left. apply nth_upd_other. congruence.
+  - rewrite set_client_out by exact L. rewrite C1. left. reflexivity.
+Qed.
+
+Lemma entry_removeclientrq_same st c i : safe st zero -> entry (removeclientrq st c i) c (N.to_nat i) = None.
+Proof.
+  intro S. destruct (entry st c (N.to_nat i)) as [h|] eqn:En.
+  - destruct (safe_no_dangling st S h ltac:(pose proof (entry_refs _ _ _ _ En); lia)) as (r & G & _).
+    exact (removeclientrq_entry_cleared st c i h r En G).
+  - unfold removeclientrq. cbv zeta. unfold entry in En. rewrite En. exact En.
+Qed.
+
+Lemma fold_removeclientrq_clears c : forall n st0 k, safe st0 zero -> (forall j, (j < k)%nat -> entry st0 c j = None) ->
+  safe (fold_left (fun st i => removeclientrq st c (N.of_nat i)) (seq k n) st0) zero /\
+  forall j, (j < k + n)%nat -> entry (fold_left (fun st i => removeclientrq st c (N.of_nat i)) (seq k n) st0) c j = None.
+Proof.
+  induction n as [|n IH]; intros st0 k S0 Hk.
+  - cbn [seq fold_left]. split; [exact S0|]. intros j Hj. apply Hk. lia.
+  - cbn [seq fold_left].
+    assert (S1 : safe (removeclientrq st0 c (N.of_nat k)) zero) by (apply safe_removeclientrq; exact S0).
+    assert (H1 : forall j, (j < Datatypes.S k)%nat -> entry (removeclientrq st0 c (N.of_nat k)) c j = None).
+    { intros j Hj. destruct (Nat.eq_dec j k) as [->|Hn].
+      - pose proof (entry_removeclientrq_same st0 c (N.of_nat k) S0) as E. rewrite Nat2N.id in E. exact E.
+      - destruct (entry_removeclientrq_other st0 c (N.of_nat k) j ltac:(rewrite Nat2N.id; exact Hn)) as [E | E]; [rewrite E; apply Hk; lia | exact E]. }
+    destruct (IH _ (Datatypes.S k) S1 H1) as [Sa Ha]. split; [exact Sa|].
+    intros j Hj. apply Ha. lia.
+Qed.
+
+Theorem removeclient_empties st c : safe st zero ->
+  (forall j, (j < 256)%nat -> entry (removeclient st c) c j = None) /\ c_replyq (get_client (removeclient st c) c) = [].
+Proof.
+  intros Hs. unfold removeclient. generalize 256%nat. intro n.
+  set (stF := fold_left (fun st i => removeclientrq st c (N.of_nat i)) (seq 0 n) st).
+  assert (F : safe stF zero /\ forall j, (j < n)%nat -> entry stF c j = None).
+  { pose proof (fold_removeclientrq_clears c n st 0%nat Hs (fun j (Hj : (j < 0)%nat) => match Nat.nlt_0_r j Hj with end)) as [Sa Ha].
+    split; [exact Sa|]. intros j Hj. exact (Ha j Hj). }
+  destruct F as [SF EF]. clearbody stF.
+  unfold drain_replyq. cbv zeta.
+  set (stc := set_client stF c (mkClient (c_rqs (get_client stF c)) [])).
+  assert (Cl : forall q stx, get_client (fold_left freerq q stx) c = get_client stx c).
+  { induction q as [|x q IH]; intro stx; [reflexivity|]. cbn [fold_left]. rewrite IH. apply get_client_freerq. }
+  split.
+  - intros j Hj. unfold entry. rewrite Cl. subst stc.
+    destruct (Nat.lt_ge_cases c (length (st_clients stF))) as [L|L].
+    + rewrite get_client_set_client by exact L. rewrite Nat.eqb_refl. exact (EF j Hj).
+    + rewrite set_client_out by exact L. exact (EF j Hj).
+  - rewrite Cl. subst stc.
+    destruct (Nat.lt_ge_cases c (length (st_clients stF))) as [L|L].
+    + rewrite get_client_set_client by exact L. rewrite Nat.eqb_refl. reflexivity.
+    + rewrite set_client_out by exact L. rewrite (get_client_out stF c L). reflexivity.
+Qed.
